@@ -1,0 +1,60 @@
+//go:build verif
+
+// Contracts for the icevc deductive verifier (see /verif/DESIGN.md).
+// This file is comment-only and is compiled out unless the build tag
+// "verif" is set; it does not change the package in any way.
+
+package ice
+
+//@ spec chunkSizeV2(mode int, card int, maxDocs int) int = ite(mode <= 1024, mode, maxDocs / (card / 1024 + 1))
+//@
+//@ func getChunkSize
+//@   safety[C01,C05] div wrap conv idx slice nil
+//@   ensures[C01,C02,C05,C10] chunkMode <= 1025 ==> result1 == nil && result0 == chunkSizeV2(chunkMode, cardinality, maxDocs)
+//@   ensures[C10] chunkMode > 1025 ==> result1 != nil
+//@   ensures[C01,C05] chunkMode == 1025 && 1 <= maxDocs && cardinality <= maxDocs ==> 1 <= result0 && result0 <= maxDocs
+//@
+//@ func numUvarintBytes
+//@   safety[C01] wrap div
+//@   ensures[C01,C02,C10] n == uvlen(x)
+//@   loop 0 invariant 0 <= n && n <= 9 && n + uvlen(x) == uvlen(old(x))
+//@   loop 0 decreases x
+//@
+//@ spec isCHW(x int) bool = x != 0 && dyntype(x) == typetag("*countHashWriter")
+//@ typeinv countHashWriter self.w != self && dyntype(self) == typetag("*countHashWriter")
+//@
+//@ func newCountHashWriter
+//@   safety[C11] nil
+//@   modifies allocTop, countHashWriter.w, countHashWriter.crc, countHashWriter.n
+//@   ensures[C11] result0 != nil && fresh(result0) && result0.w == w && result0.crc == 0 && result0.n == 0
+//@   ensures[C11] forall(r, r != result0 ==> cast(r, "*countHashWriter").w == old(cast(r, "*countHashWriter").w) && cast(r, "*countHashWriter").crc == old(cast(r, "*countHashWriter").crc) && cast(r, "*countHashWriter").n == old(cast(r, "*countHashWriter").n))
+//@
+//@ func (*countHashWriter).Count
+//@   pure
+//@   ensures[C11] result0 == c.n
+//@
+//@ func (*countHashWriter).Sum32
+//@   pure
+//@   ensures[C11] result0 == c.crc
+//@
+//@ func (*countHashWriter).Write
+//@   safety[C11] idx slice nil
+//@   requires[C11] isCHW(c.w) ==> !isCHW(cast(c.w, "*countHashWriter").w)
+//@   modifies c.crc, c.n, cast(c.w, "*countHashWriter").crc if isCHW(c.w), cast(c.w, "*countHashWriter").n if isCHW(c.w), wfailed, out(*), outlen(*)
+//@   ghostset out(c) = appendseq(old(out(c)), old(outlen(c)), contents(b), off(b), result0)
+//@   ghostset outlen(c) = old(outlen(c)) + result0
+//@   ensures[C11] c.n == old(c.n) + result0
+//@   ensures[C11] c.crc == crcUpd(old(c.crc), contents(b), off(b), off(b) + result0)
+//@   ensures[C11] 0 <= result0 && result0 <= len(b) && (result1 == nil ==> result0 == len(b))
+//@   ensures[C11] outlen(c.w) == old(outlen(c.w)) + result0
+//@   ensures[C11] out(c.w) == appendseq(old(out(c.w)), old(outlen(c.w)), contents(b), off(b), result0)
+//@   ensures[C12] result1 == nil ==> wfailed == old(wfailed)
+//@   ensures[C12] old(wfailed) ==> wfailed
+//@   ensures c.w == old(c.w)
+//@
+//@ func isClosed
+//@   trusted
+//@   modifies cancelled
+//@   ensures result0 ==> cancelled
+//@   ensures !result0 ==> cancelled == old(cancelled)
+//@   ensures old(cancelled) ==> cancelled
